@@ -568,17 +568,23 @@ def patchTree (root patch : Node) : Node × Err :=
   | .error e => (root, e)
   | .ok ops => patchNode root ops
 
-/-- `_jbl_patch`: the binary document is decoded, patched as a tree and re-encoded only on success; the holder keeps its
-    bytes on every failure.  `none` = the holder was emptied (root removed). -/
+/-- the tail of `_jbl_patch`: re-encode and swap in only on success; the holder keeps its bytes on every failure.
+    `none` = the holder was emptied (root removed). -/
+def finishBinary (doc : JVal) (r : Node × Err) : Option JVal × Err :=
+  match r with
+  | (.none, .ok) => (none, .ok)
+  | (t, .ok) => (some (erase t), .ok)
+  | (_, e) => (some doc, e)
+
+/-- `_jbl_patch` after decoding: the binary document is decoded to a tree, patched, re-encoded -/
+def applyBinary (doc : JVal) (ops : List RawOp) : Option JVal × Err :=
+  if ops.isEmpty then (some doc, .ok) else finishBinary doc (patchNode (ofJ doc) ops)
+
+/-- `jbl_patch` / the array branch of `jbl_patch_from_json` -/
 def patchBinary (doc : JVal) (patch : Node) : Option JVal × Err :=
   match decode patch with
   | .error e => (some doc, e)
-  | .ok ops =>
-    if ops.isEmpty then (some doc, .ok)
-    else match patchNode (ofJ doc) ops with
-      | (.none, .ok) => (none, .ok)
-      | (t, .ok) => (some (erase t), .ok)
-      | (_, e) => (some doc, e)
+  | .ok ops => applyBinary doc ops
 
 /-- `jbl_patch_from_json` dispatch on the type of the parsed patch text -/
 def patchFromJson (doc : JVal) (patch : Node) : Option JVal × Err :=
